@@ -261,7 +261,7 @@ fn fixed() -> Vec<Case> {
     ];
     // long non-ASCII values: error paths put them into messages / context
     let long = format!("x{}", "é".repeat(40));
-    let data = obj(vec![("arr", RV::Arr(vec![RV::Int(1), RV::Int(2), RV::Int(3)])), ("name", st("Tobi")), ("long", st(&long)), ("longarr", RV::Arr(vec![st(&long), st(&format!("ab{long}"))]))]);
+    let data = obj(vec![("arr", RV::Arr(vec![RV::Int(1), RV::Int(2), RV::Int(3)])), ("name", st("Tobi")), ("nothing", RV::Arr(vec![])), ("long", st(&long)), ("longarr", RV::Arr(vec![st(&long), st(&format!("ab{long}"))]))]);
     let t = [
         "plain text only",
         "a{{ name }}b{{ 1 }}c",
@@ -273,6 +273,10 @@ fn fixed() -> Vec<Case> {
         "{% capture c %}hidden{% endcapture %}{{ c }}{{ c | upcase }}{% if name %}yes{% else %}no{% endif %}{% unless name %}u{% endunless %}",
         "{% for i in arr %}{% for j in arr %}{{ i }}{{ j }}{% if j == 2 %}{% continue %}{% endif %}-{% endfor %}{% endfor %}",
         "{{ name }}{{ undefined_name }}after",
+        // values that print in several writes; an else branch of an empty loop; nested else branches
+        "<{{ arr }}|{{ longarr }}|{{ arr | reverse }}>tail",
+        "{% for i in nothing %}never{% else %}empty {{ name }} branch{% endfor %}tail{% for i in (1..0) %}x{% else %}{{ arr }}{% endfor %}",
+        "{% tablerow i in nothing %}never{% endtablerow %}|{% for i in arr %}{% for j in nothing %}n{% else %}e{{ i }}{% endfor %}{% endfor %}|{% if nothing %}a{% else %}b{{ name }}c{% endif %}{% unless name %}u{% else %}v{{ name }}w{% endunless %}{% case name %}{% when 'x' %}x{% else %}y{{ name }}z{% endcase %}",
         "<{% render 'x', k: 1 %}|{% render 'x.liquid', k: 2 %}|{% render 'only', k: 3 %}|{% include 'x' k: 4 %}>",
         "{% case long %}{% when long %}hit{{ long }}{% else %}miss{% endcase %}{% case name %}{% when 'nope' %}n{% else %}else{{ long }}{% endcase %}",
         "{% if long == long %}same{{ long | upcase }}{% endif %}{% unless long contains 'zz' %}u{{ long | size }}{% endunless %}",
